@@ -144,7 +144,7 @@ func (p *jsonPathParser) syntaxErr(pos int, reason string, buffer string) error 
 	return ErrorInvalidSyntax{
 		position: pos,
 		reason:   reason,
-		near:     buffer[pos:],
+		near:     string([]rune(buffer)[pos:]), // pos counts characters, not bytes
 	}
 }
 
